@@ -480,7 +480,11 @@ def run(ctx):
             if not same_answer(r, e["model"][b]):
                 corr_bad.append((c, e, b))
     ctx.cov["traces_validated_against_impl"] = len(cases) * 2
-    ctx.cov["known_class_cases (float **, judged by CPython only)"] = known_hits
+    # the known class (float **): not decided by Spec.v; compared with CPython for the record only
+    kc = [c for c, e in zip(cases, ev) if e["judge"]["debug"][0] == 2]
+    kpy = cpython_eval(kc) if kc else []
+    kdiff = sum(1 for c, p, e in zip(kc, kpy, [e for e in ev if e["judge"]["debug"][0] == 2]) if canon_res(e["impl"]["debug"]) != p)
+    ctx.cov["known_class_float_pow"] = {"cases": len(kc), "folded_value_differs_from_CPython": kdiff}
 
     # end to end
     e2e_bad = run_e2e(ctx, model, ctx.scale(120, 1500)) if not NOFIX else []
